@@ -2,7 +2,7 @@
 From Coq Require Import Reals List.
 From BLE Require Import Model.IVector Proofs.IVectorR Proofs.IVAffine.
 From BLE Require Import Model.FA Proofs.FAEnroll Proofs.FAAffine.
-From BLE Require Import Num.InstR Model.GMM Model.KMeans Model.LinScore Proofs.RLemmas Proofs.GMMLik Proofs.GMMStats Proofs.KMeansR Proofs.LinScoreR Proofs.Affine Proofs.GMMFit Proofs.KMeansFit Proofs.AffineStop Proofs.AffineRun.
+From BLE Require Import Num.InstR Model.GMM Model.KMeans Model.LinScore Proofs.RLemmas Proofs.GMMLik Proofs.GMMStats Proofs.KMeansR Proofs.LinScoreR Proofs.Affine Proofs.GMMFit Proofs.KMeansFit Proofs.AffineStop Proofs.AffineRun Proofs.KMeansRigid.
 Import ListNotations.
 Open Scope R_scope.
 
@@ -160,3 +160,41 @@ Theorem C15_starved_component_mean_update_shift_equivariant_refuted :
   exists eps n s b : R, 0 < eps /\ 0 <= n < eps /\ (s + n * b) / Rmax n eps <> s / Rmax n eps + b.
 Proof. exact starved_mean_update_shift_equivariant_refuted. Qed.
 Print Assumptions C15_starved_component_mean_update_shift_equivariant_refuted.
+
+(* k-means under a rigid motion with uniform scaling  f(x) = s * (Q x) + t,  Q orthogonal (rotations and reflections), s <> 0:
+   squared distances are multiplied by s^2, assignments are unchanged, one EM iteration and whole training runs commute with f
+   (centroids mapped by f, reported criteria multiplied by s^2, the same number of iterations under the relative-change rule as
+   long as no reported criterion is exactly 0, where the rule itself is 0/0). *)
+Theorem C15_kmeans_distances_under_rigid_motion (D : nat) (s : R) (Q : list (list R)) (t c x : list R) :
+  orthogonal D Q -> length t = D -> length c = D -> length x = D ->
+  KR.sqdist (rigid s Q t c) (rigid s Q t x) = s * s * KR.sqdist c x.
+Proof. exact (sqdist_rigid D s Q t c x). Qed.
+Print Assumptions C15_kmeans_distances_under_rigid_motion.
+
+Theorem C15_kmeans_assignment_under_rigid_motion (D : nat) (s : R) (Q : list (list R)) (t : list R) (cents : list (list R)) (x : list R) :
+  s <> 0 -> orthogonal D Q -> length t = D -> length x = D -> KMeansR.rows_ok D cents ->
+  KR.closest (map (rigid s Q t) cents) (rigid s Q t x) = KR.closest cents x.
+Proof. exact (closest_rigid D s Q t cents x). Qed.
+Print Assumptions C15_kmeans_assignment_under_rigid_motion.
+
+Theorem C15_kmeans_iteration_follows_rigid_motion (D : nat) (s : R) (Q : list (list R)) (t : list R) (chunks : list (list (list R))) (cents : list (list R)) :
+  s <> 0 -> orthogonal D Q -> length t = D -> Forall (KMeansR.rows_ok D) chunks -> KMeansR.rows_ok D cents ->
+  KR.em_iter D (map (map (rigid s Q t)) chunks) (map (rigid s Q t) cents)
+  = match KR.em_iter D chunks cents with
+    | Some (cents', crit) => Some (map (rigid s Q t) cents', s * s * crit)
+    | None => None
+    end.
+Proof. exact (em_iter_rigid D s Q t chunks cents). Qed.
+Print Assumptions C15_kmeans_iteration_follows_rigid_motion.
+
+Theorem C15_kmeans_training_follows_rigid_motion (D cap : nat) (cthr : option R) (s : R) (Q : list (list R)) (t : list R) (chunks : list (list (list R)))
+        (cents cents' : list (list R)) (n : nat) (hist : list R) :
+  s <> 0 -> orthogonal D Q -> length t = D -> Forall (KMeansR.rows_ok D) chunks -> KMeansR.rows_ok D cents ->
+  KR.fit cap cthr D chunks cents = Some (cents', n, hist) -> Forall (fun c => c <> 0) hist ->
+  KR.fit cap cthr D (map (map (rigid s Q t)) chunks) (map (rigid s Q t) cents)
+  = Some (map (rigid s Q t) cents', n, map (Rmult (s * s)) hist).
+Proof. exact (kmeans_fit_rigid D cap cthr s Q t chunks cents cents' n hist). Qed.
+Print Assumptions C15_kmeans_training_follows_rigid_motion.
+
+Example C15_a_rotation_is_orthogonal : orthogonal 2 [[0; -1]; [1; 0]].
+Proof. exact rot90_orthogonal. Qed.
